@@ -20,7 +20,7 @@ One atom = one persistence event of the real code (one `vevent` call site, see
 
 `create p; extend p` and `truncate p 0; unlink p` are two system calls inside one library call
 (`z.OpenMmapFile`, `z.MmapFile.Delete`): one atom, but two crash points at the syscall level
-(`C08`'s finding F17 lives in between).
+(`C08`'s finding F22 lives in between).
 
 Every atom checks, on the logical state alone, the conditions under which the code executes it
 (`Atom.guard`); an atom whose guard fails emits nothing. In the programs generated below the
